@@ -31,10 +31,10 @@ def errName : DErr → String
 def importToJson (i : Import) : Json :=
   Json.arr #[strs i.module, .bool i.isFrom, match i.alias with | some a => .str a | none => .null]
 
-/-- the import manager built from the recorded imports, in the order the constructor adds them -/
+/-- the import manager built from the recorded imports (given in any order) -/
 def imJson (case : Json) : Json :=
   let l := (jarr (jfield case "imlist")).map importOfJson
-  match ({} : IM).addAll l with
+  match IM.ofRecorded l with
   | none => .null
   | some im => Json.mkObj [("imports", .arr (im.imports.map importToJson).toArray),
       ("selectors", .arr (im.selectors.map (fun (m, s) => Json.arr #[strs m, strs s])).toArray)]
